@@ -1869,10 +1869,10 @@ mzd_t *mzd_extract_l(mzd_t *L, mzd_t const *A) {
   if (L != NULL) { assert(L->nrows == k && L->ncols == k); }
   L = mzd_submatrix(L, A, 0, 0, k, k);
   for (rci_t i = 0; i < L->nrows - 1; i++) {
-    word *row = mzd_row(L, i);
-    if (m4ri_radix - (i + 1) % m4ri_radix)
-      mzd_clear_bits(L, i, i + 1, m4ri_radix - (i + 1) % m4ri_radix);
-    for (wi_t j = (i / m4ri_radix + 1); j < L->width; j++) { row[j] = 0; }
+    /* clear the columns i+1 .. ncols-1 of row i, and nothing beyond the last column */
+    for (rci_t j = i + 1; j < L->ncols; j += m4ri_radix - j % m4ri_radix) {
+      mzd_clear_bits(L, i, j, MIN(m4ri_radix - j % m4ri_radix, L->ncols - j));
+    }
   }
   return L;
 }
